@@ -220,4 +220,235 @@ def predict (fx : Fixes) (cs : Case) (closedAtNs nNotRunning0 nNotStarted0 : Nat
     panicsInjected := panics, resumed := resumed, resumedWithinNs := if resumed then cs.intervalNs else 0,
     othersTicked := true, pipelineDone := survived }
 
+
+/-! ### exact trace validation of the recoverer (code built with the `verif` hooks of pkg/v3/service)
+
+One hook event follows every step of `recoverable.go` on its shared state and reports the step's OUTCOME (the flag
+value read, the message received or sent, sent vs. dropped, whether `service.Close()` / `service.Start()` returned an
+error).  The wrapped service is not instrumented: its internal steps (`StartOnce`, leaving the loop, `StopOnce`,
+waiting for `done`, a panic, and serviceStart PARKING in its select — which happens inside the Go runtime) are
+filled in by the checker as hidden steps, constrained by the model's service semantics and by what the events assert
+about them (e.g. `rs.returned nil` can only be placed once the service goroutine has left its loop).
+
+A proposed explanation of a log is a list of items: event indices and hidden labels.  `traceOk` accepts it iff the
+event indices are an admissible reordering of the whole log (`wellOrdered`: every goroutine's own order, and never an
+event before one that was logged before its interval began) and replaying the items from the fresh recoverer is
+possible — every event's reported outcome agreeing with the model state at that point.  Props: `trace_sound`. -/
+
+/-- one hook event of one recoverer -/
+structure Ev where
+  pt : String
+  g  : Nat     -- goroutine
+  k  : Nat     -- outcome: error kind 0 nil / 1 other error / 2 errServiceStopped / 3 errServiceContextCancelled
+  pos : Nat := 0  -- position in the one log of all recoverers of the case (strictly increasing along `evs`)
+  pa : Nat := 0  -- 1 + position of the previous event of the same goroutine in that log (whatever recoverer); 0 = none
+deriving DecidableEq, Repr, Inhabited
+
+inductive Item
+  | ev (i : Nat)        -- the i-th event of the log
+  | hid (l : CLabel)    -- a step the hooks cannot see
+deriving DecidableEq, Repr
+
+def msgOfKind : Nat → Msg
+  | 0 => .nil | 2 => .stopped | 3 => .cancelled | _ => .svcErr
+
+/-- trace state: the model state plus the message handed to a parked serviceStart whose `ss.recv` event has not been
+    placed yet (Go hands the value over inside the sender's step; the receiver's hook runs when it is scheduled again) -/
+structure TState where
+  c : Core
+  handed : Option Msg := none
+deriving DecidableEq, Repr
+
+/-- steps without a hook: the wrapped service's internals and serviceStart parking in its select -/
+def hiddenOk (t : TState) : CLabel → Bool
+  | .gCall | .gStarted | .gStopSeen | .gPanic | .cSvcClose | .cWaitDone => true
+  | .sSel => decide (t.c.buf = none) && decide (t.handed = none)   -- parking only; receiving has a hook
+  | _ => false
+
+def runT (t : TState) (ls : List CLabel) (handed : Option Msg) : Option TState :=
+  (runC t.c ls).map fun c' => { c := c', handed := handed }
+
+/-- a send on `stopped` that succeeds: direct hand-off if serviceStart is parked (remember the message until its
+    `ss.recv` is placed), otherwise into the free buffer slot -/
+def sendT (t : TState) (l : CLabel) (m : Msg) : Option TState :=
+  if t.handed ≠ none then none
+  else if t.c.spc = .parked then runT t [l] (some m)
+  else if t.c.buf = none then runT t [l] none
+  else none
+
+/-- one event: check its reported outcome against the model state and take the model step(s) it stands for -/
+def tstep (t : TState) (e : Ev) : Option TState :=
+  let c := t.c
+  let closeL : CLabel := if c.cpc = .idle then .closeCall else .closeAgain
+  match e.pt with
+  -- recoverer.Start
+  | "start.running" => if c.running then runT t [.sInit] t.handed else none
+  | "start.idle" => if c.running then none else runT t [.sInit] t.handed
+  | "start.spawned" => runT t [.sSpawn] t.handed
+  -- serviceStart
+  | "ss.stored" => runT t [.sStore] t.handed
+  | "ss.recv" =>
+    (match t.handed with
+     | some m => if m = msgOfKind e.k then some { t with handed := none } else none
+     | none => if c.spc = .sel ∧ c.buf = some (msgOfKind e.k) then runT t [.sSel] none else none)
+  | "ss.cooled" => if t.handed = none then runT t [.coolElapsed] none else none
+  | "ss.respawned" => if t.handed = none then runT t [.sRespawn] none else none
+  | "ss.cleared" => if t.handed = none then runT t [.sClear] none else none
+  -- recoverableStart
+  | "rs.enter" => if c.gs > 0 then some t else none
+  | "rs.returned" => if e.k = 0 then (if c.nSendNil > 0 then some t else none) else (if c.nSendErr > 0 then some t else none)
+  | "rs.recovered" => if c.nSendStopped > 0 then some t else none
+  | "rs.sent" =>
+    (match msgOfKind e.k with
+     | .nil => sendT t .gSendNil .nil
+     | .svcErr => sendT t .gSendErr .svcErr
+     | .stopped => sendT t .gSendStopped .stopped
+     | .cancelled => none)
+  -- recoverer.Close
+  | "close.notrunning" => if c.running then none else runT t [closeL, .cLoad] t.handed
+  | "close.running" => if c.running then runT t [closeL, .cLoad] t.handed else none
+  | "close.svc" => if c.cpc = .signal ∧ c.svcErr = decide (e.k ≠ 0) then some t else none
+  | "close.sent" => if c.cpc = .signal then sendT t .cSignal .cancelled else none
+  | "close.dropped" =>
+    if c.cpc = .signal ∧ t.handed = none ∧ c.spc ≠ .parked ∧ c.buf ≠ none then runT t [.cSignal] none else none
+  | _ => none
+
+/-- replay a proposed explanation -/
+def replay (evs : Array Ev) : TState → List Item → Option TState
+  | t, [] => some t
+  | t, .ev i :: is =>
+    (match evs[i]? with
+     | none => none
+     | some e =>
+       match tstep t e with
+       | some t' => replay evs t' is
+       | none => none)
+  | t, .hid l :: is =>
+    if hiddenOk t l then
+      (match stepCore t.c l with
+       | some c' => replay evs { t with c := c' } is
+       | none => none)
+    else none
+
+def evIndices : List Item → List Nat
+  | [] => []
+  | .ev i :: is => i :: evIndices is
+  | .hid _ :: is => evIndices is
+
+/-- the first index ≥ `f` that is not marked (at most `fuel` steps) -/
+def advance (seen : Array Bool) : Nat → Nat → Nat
+  | 0, f => f
+  | fuel + 1, f => if seen.getD f false then advance seen fuel (f + 1) else f
+
+/-- positions strictly increase along the log -/
+def atSorted : List Ev → Bool
+  | a :: b :: rest => decide (a.pos < b.pos) && atSorted (b :: rest)
+  | _ => true
+
+/-- `order` uses every event of this recoverer exactly once and never places an event before one of its events that was
+    logged at or before the previous event of the same goroutine — i.e. before the event's interval began; that
+    previous event may belong to another recoverer (the Close goroutine visits them in turn), which is why positions
+    in the common log are used.  This includes every goroutine's own order. -/
+def wellOrdered (evs : Array Ev) (order : List Nat) : Bool :=
+  let n := evs.size
+  atSorted evs.toList && decide (order.length = n) &&
+  (order.foldl (fun (acc : Option (Array Bool × Nat)) i =>
+      match acc with
+      | none => none
+      | some (seen, first) =>
+        if i < n && !seen.getD i true then
+          -- `first` = the first event not placed yet; everything logged at or before the goroutine's previous event is placed
+          let ok1 := decide ((evs.getD i default).pa = 0) || decide ((evs.getD first default).pos + 1 > (evs.getD i default).pa)
+          if ok1 then
+            let seen := seen.set! i true
+            some (seen, advance seen n first)
+          else none
+        else none)
+    (some ((List.replicate n false).toArray, 0))).isSome
+
+/-- the fresh recoverer of the given service kind -/
+def initOf (latched : Bool) : Core := if latched then initL else init
+
+/-- the trace check -/
+def traceOk (latched : Bool) (evs : Array Ev) (items : List Item) : Bool :=
+  wellOrdered evs (evIndices items) && (replay evs { c := initOf latched } items).isSome
+
+
+/-! ### trace validation of the OCR2 `RecoverableService` (hooks in internal/util)
+
+Here every step has a hook (Start / Stop as a whole — they run under the mutex —, every receive, the end of the
+cool-down, every `run()`, `Do` entered / returned / panicked, every send); the only hidden step is the watcher parking
+in its select. -/
+namespace V2
+
+inductive VItem
+  | ev (i : Nat)
+  | park            -- the watcher parks in its select (`wSel` on an empty channel)
+deriving DecidableEq, Repr
+
+structure VTState where
+  c : VCore
+  handed : Option Msg := none
+deriving DecidableEq, Repr
+
+def vrunT (t : VTState) (ls : List VLabel) (handed : Option Msg) : Option VTState :=
+  (vrun t.c ls).map fun c' => { c := c', handed := handed }
+
+def vsendT (t : VTState) (l : VLabel) (m : Msg) : Option VTState :=
+  if t.handed ≠ none then none
+  else if t.c.wpc = .parked then vrunT t [l] (some m)
+  else if t.c.buf = none then vrunT t [l] none
+  else none
+
+def vtstep (t : VTState) (e : Ev) : Option VTState :=
+  let c := t.c
+  match e.pt with
+  | "v2.start.running" => if c.running then vrunT t [.start] t.handed else none
+  | "v2.started" => if c.running then none else vrunT t [.start] t.handed
+  | "v2.stop.notrunning" => if c.running then none else vrunT t [.stop] t.handed
+  | "v2.stopped" => if c.running then vrunT t [.stop] t.handed else none
+  | "v2.w.recv" =>
+    (match t.handed with
+     | some m => if m = msgOfKind e.k then some { t with handed := none } else none
+     | none => if c.wpc = .sel ∧ c.buf = some (msgOfKind e.k) then vrunT t [.wSel] none else none)
+  | "v2.w.cooled" => if t.handed = none then vrunT t [.coolElapsed] none else none
+  | "v2.w.rerun" => if t.handed = none then vrunT t [.wRerun] none else none
+  | "v2.w.stopseen" => if t.handed = none then vrunT t [.wStopSeen] none else none
+  | "v2.g.enter" => vrunT t [.gEnter] t.handed
+  | "v2.g.returned" => if e.k = 0 then vrunT t [.gReturnNil] t.handed else vrunT t [.gReturnErr] t.handed
+  | "v2.g.recovered" => vrunT t [.gPanic] t.handed
+  | "v2.g.sent" =>
+    (match msgOfKind e.k with
+     | .nil => vsendT t .gSendNil .nil
+     | .svcErr => vsendT t .gSendErr .svcErr
+     | .stopped => vsendT t .gSendStopped .stopped
+     | .cancelled => none)
+  | _ => none
+
+def vreplay (evs : Array Ev) : VTState → List VItem → Option VTState
+  | t, [] => some t
+  | t, .ev i :: is =>
+    (match evs[i]? with
+     | none => none
+     | some e =>
+       match vtstep t e with
+       | some t' => vreplay evs t' is
+       | none => none)
+  | t, .park :: is =>
+    if t.c.wpc = .sel ∧ t.c.buf = none ∧ t.handed = none then
+      (match vstep t.c .wSel with
+       | some c' => vreplay evs { t with c := c' } is
+       | none => none)
+    else none
+
+def vevIndices : List VItem → List Nat
+  | [] => []
+  | .ev i :: is => i :: vevIndices is
+  | .park :: is => vevIndices is
+
+def vtraceOk (evs : Array Ev) (items : List VItem) : Bool :=
+  wellOrdered evs (vevIndices items) && (vreplay evs { c := vinit } items).isSome
+
+end V2
+
 end AutoVerif.C18
